@@ -1,0 +1,34 @@
+//go:build verif
+
+package node
+
+// Contracts for the gowp verifier (/verif). This file contains comments only: with or
+// without the build tag the compiled package is identical.
+
+//@ spec def hasWS(s String) Bool = str_contains(s, " ") || str_contains(s, "\t") || str_contains(s, "\n") || str_contains(s, "\r")
+//@ spec def validType(s String) Bool = !hasWS(s) && str_prefixof("/", s) && !str_suffixof("/", s)
+//@ spec def validID(s String) Bool = !str_contains(s, "<") && !str_contains(s, ">") && len(s) > 0
+
+//@ props C15 C08
+//@ func Parse
+//@   opt terminates
+//@   ensures[value-or-error] (result0 != nil && result1 == nil) || (result0 == nil && result1 != nil)
+//@   ensures[well-formed] result0 != nil ==> result0.t != nil && result0.id != nil && validID(deref(result0.id)) && validType(deref(result0.t))
+
+//@ func NewType
+//@   ensures[value-or-error] (result0 != nil && result1 == nil) || (result0 == nil && result1 != nil)
+//@   ensures[accepts] result0 != nil <==> validType(t)
+//@   ensures[value] result0 != nil ==> fresh(result0) && deref(result0) == t
+
+//@ func NewID
+//@   ensures[value-or-error] (result0 != nil && result1 == nil) || (result0 == nil && result1 != nil)
+//@   ensures[accepts] result0 != nil <==> validID(id)
+//@   ensures[value] result0 != nil ==> fresh(result0) && deref(result0) == id
+
+//@ func NewNode
+//@   ensures[value] result != nil && fresh(result) && result.t == t && result.id == id
+
+//@ func NewNodeFromStrings
+//@   ensures[value-or-error] (result0 != nil && result1 == nil) || (result0 == nil && result1 != nil)
+//@   ensures[accepts] result0 != nil <==> validType(sT) && validID(sID)
+//@   ensures[value] result0 != nil ==> deref(result0.t) == sT && deref(result0.id) == sID
